@@ -9,7 +9,7 @@ META = {
                    "with no return; new() is called exactly at 0xD3 positions on data[i..]; the error set of new() is closed "
                    "({NotValid, Incomplete}), so the unreachable!() arm is dead. MsgFrameIter::next calls the scanner on data[index..] "
                    "iff index < len, adds the consumed count to index (its only store) and returns the frame unchanged. "
-                   "Together with C03 this determines the scanner's function completely.",
+                   "Together with C03 this determines the scanner's function completely. Completeness (S-cand): once the scan position holds 0xD3 nothing else decides whether new() is called there - no path from the preamble test reaches the loop head or a return without the call (both scanner idioms); I-state: fields added to MsgFrameIter never reach data / index / the result.",
     "assumptions": [],
 }
 
